@@ -233,7 +233,10 @@ def expected(s, accel):
                 e["opa_scale"], e["opb_scale"], e["ifm"]["scale_mode"] = (1, 0), (1, 0), 0
         elif mode == "MUL":
             cands = []
-            for d in (float(s1) * float(s2) / float(so),):  # the API is given Python floats: double arithmetic
+            ds = [float(s1) * float(s2) / float(so)]  # Python float scales: double arithmetic
+            if s["ifm"].get("scale_is_f32") and a["type"] not in ("TANH", "SIGMOID"):
+                ds.append(float(np.float32(np.float32(s1) * np.float32(s2)) / np.float32(so)))  # np.float32 scales (as the compiler passes them): float32 arithmetic
+            for d in ds:
                 if d is None:
                     continue
                 _, ex = math.frexp(d)
@@ -620,3 +623,62 @@ def replay(ctx, case):
 
         return e2e.replay(ctx, PROPERTY, case)
     oracle(case, None)
+
+
+# ------------------------------------------------------------------------------------------------------------
+# Part B support: turn captured NpuOperation objects back into specs (inverse of build_op) so that the same
+# expectation/decoder comparison runs on the operation lists Vela itself builds for generated networks.
+def spec_from_fm(fm):
+    if fm is None:
+        return None
+    q = fm.quantization
+    return dict(dtype=fm.data_type.name.lower(), region=int(fm.region), shape=[int(fm.shape.height), int(fm.shape.width), int(fm.shape.depth)],
+                layout="NHCWB16" if fm.layout.name == "NHCWB16" else "NHWC",
+                tiles=[int(fm.tiles.height_0), int(fm.tiles.height_1), int(fm.tiles.width_0), [int(a) for a in fm.tiles.addresses]],
+                zp=None if q is None else int(q.zero_point), scale=None if q is None or q.scale_f32 is None else float(q.scale_f32),
+                scale_is_f32=(q is not None and q.scale_f32 is not None and type(q.scale_f32).__name__ == "float32"),
+                strides=None if fm.strides is None else [int(fm.strides.height), int(fm.strides.width), int(fm.strides.depth)], name=fm.name)
+
+
+def spec_from_op(op):
+    from ethosu.vela import api
+
+    if isinstance(op, api.NpuDmaOperation):
+        return dict(kind="dma", src=[int(op.src.region), int(op.src.address), int(op.src.length)], dest=[int(op.dest.region), int(op.dest.address), int(op.dest.length)],
+                    channel=int(op.channel), mode=int(op.mode))
+    kind = {api.NpuConv2DOperation: "conv", api.NpuConvDepthWiseOperation: "depthwise", api.NpuPoolingOperation: "pool", api.NpuElementWiseOperation: "elementwise"}[type(op)]
+    s = dict(kind=kind, rounding=op.rounding_mode.name, upscale=op.ifm_upscale.name, fused_quantize=bool(op.fused_quantize))
+    s["ifm"] = spec_from_fm(op.ifm)
+    s["ofm"] = spec_from_fm(op.ofm)
+    if op.ifm2 is not None:
+        s["ifm2"] = spec_from_fm(op.ifm2)
+        s["ifm2_scalar"] = None if op.ifm2_scalar is None else float(op.ifm2_scalar)
+    if kind != "elementwise":
+        k = op.kernel
+        s["kernel"] = [int(k.width), int(k.height), int(k.stride_x), int(k.stride_y), int(k.dilation_x), int(k.dilation_y)]
+        s["padding"] = [int(op.padding.top), int(op.padding.left), int(op.padding.bottom), int(op.padding.right)] if op.padding is not None else [0, 0, 0, 0]
+    if kind == "conv":
+        s["part_kernel"] = op.block_traversal.name == "PART_KERNEL_FIRST"
+    else:
+        s["part_kernel"] = False
+    s["weights"] = [[int(w.region), int(w.address), int(w.length)] for w in op.weights]
+    s["biases"] = [[int(w.region), int(w.address), int(w.length)] for w in op.biases]
+    if op.activation is not None:
+        a = op.activation
+        s["activation"] = dict(type=a.op_type.name, min=None if a.min is None else float(a.min), max=None if a.max is None else float(a.max), lut=int(a.lookup_table_index))
+    if kind in ("pool", "elementwise"):
+        s["mode"] = op.sub_op_type.name
+        r = op.rescale
+        if r is None:
+            s["rescale"] = None
+        elif kind == "elementwise":
+            s["rescale"] = [int(r[0]), int(r[1])]
+        elif type(r).__name__ == "ExplicitScaling":
+            s["rescale"] = None
+            s["explicit_scaling"] = [bool(r.per_channel), [int(x) for x in r.shift], [int(x) for x in r.multiplier]]
+        else:
+            s["rescale"] = float(r)
+    if kind == "elementwise":
+        s["reversed"] = bool(op.reversed_operands)
+    s["block"] = [int(op.block_config.height), int(op.block_config.width), int(op.block_config.depth)]
+    return s
